@@ -180,10 +180,11 @@ def exec_adaptive(sc):
     mean0 = onp.asarray(sol.u.mean[0], dtype=float).reshape(len(ts), -1) if ts.shape[0] > 1 or onp.asarray(sol.u.mean[0]).ndim > 1 else onp.asarray(sol.u.mean[0], dtype=float).reshape(1, -1)
     acc = r.accepted
     ratios = [acc[i][1] / acc[i - 1][1] for i in range(1, len(acc))]
-    # the stress class: an accepted step below TINY of its predecessor -- or, at high order, below (1e-6)^(1/q) of it (the
-    # recursion amplifies by (1/ratio)^q: a ratio of 0.066 at q = 6 already degrades a fixed-point smoother run until it
-    # overflows; observed in the fourth thorough pass)
-    tiny_thr = max(TINY, 1e-6 ** (1.0 / q))
+    # the stress class: an accepted step below TINY of its predecessor -- or, at high order, below (1e-4)^(1/q) of it (the
+    # recursion amplifies by (1/ratio)^q).  Calibrated on the failures observed in the fourth thorough pass, both q = 6,
+    # TS0, fixed-point smoother, clipped steps in front of close checkpoints: one ratio of 0.066, and ratios 0.155 and
+    # 0.21 in a row; in both the run needs 60 x smaller steps afterwards and ends non-finite
+    tiny_thr = max(TINY, 1e-4 ** (1.0 / q))
     worst = 0.0
     for i, t in enumerate(ts):
         finite = bool(onp.isfinite(t) and onp.all(onp.isfinite(mean0[i])))
